@@ -155,6 +155,14 @@ def run(ctx: Ctx):
     for old in ("defaultdict(list)", "defaultdict()", "defaultdict(list, {1: [3]})", "defaultdict(list, {})", "defaultdict(int)", "[1]", ""):
         progs.append({"source": HD + f"    assert d == snapshot({old})\n    assert 1 + 1 == snapshot(3)\n    assert 'x' == snapshot()\n",
                       "sites": [{"kind": "eq", "old": 1, "new": ("int", 1)}] * 3, "opts": {}})
+    # corpus: an empty inner snapshot() as the value of a field that holds its default, next to an argument that has to be fixed: it is reached by the
+    # run that fixes the other argument (dataclass, attrs, namedtuple; top level and nested)
+    HI = ("from dataclasses import dataclass\nfrom typing import NamedTuple\nimport attrs\nfrom inline_snapshot import snapshot\n\n\n@dataclass\nclass DA:\n    a: int\n    b: int = 2\n\n\n"
+          "@attrs.define\nclass AA:\n    a: int\n    b: int = 2\n\n\nclass NA(NamedTuple):\n    a: int\n    b: int = 2\n\n\ndef test_a():\n")
+    for cls in ("DA", "AA", "NA"):
+        for body in (f"    assert {cls}(a=1, b=2) == snapshot({cls}(a=9, b=snapshot()))\n", f"    assert [{cls}(a=1, b=2)] == snapshot([{cls}(a=9, b=snapshot())])\n    assert 3 == snapshot(4)\n",
+                     f"    assert {cls}(a=1, b=2) == snapshot({cls}(a=9, b=snapshot(5)))\n"):
+            progs.append({"source": HI + body, "sites": [{"kind": "eq", "old": 1, "new": ("int", 1)}] * 2, "opts": {}})
     res = pmap(run_prog, progs, chunksize=4)
     for p, o in zip(progs, res):
         from ..valgen import nontrivial
